@@ -57,7 +57,13 @@ def generate(rng, tier, n):
     cid = 0
     while len(cases) < n:
         c = rng.random()
-        if c < 0.12:
+        forced_threads = None
+        if len(cases) < 2:
+            # the same player moves twice at the top, solved with several threads (frontier through two own decisions)
+            from ..solvers import double_move_tree
+            t, st = double_move_tree(rng, swap=len(cases) == 1)
+            forced_threads = [4, 2][len(cases)]
+        elif c < 0.12:
             t, st = blind_guess_tree(rng)
         elif c < 0.25:
             t, st = chain_tree(rng, rng.choice([6, 10, 14]))
@@ -79,6 +85,8 @@ def generate(rng, tier, n):
             continue
         preset = rng.choice(PRESETS)
         threads = rng.choice([1, 4])
+        if forced_threads:
+            threads = forced_threads
         unit = None
         if rng.random() < 0.2:
             t, unit = tiny_unit(rng, t)
